@@ -28,8 +28,7 @@ Definition Inv (s : sys) : Prop :=
     s_p0 s = PDone /\ s_p1 s = PDone
     /\ ((r = RRunning /\ (st = 2 \/ st = 4)) \/ (r = RCancelled /\ (st = 3 \/ st = 4)))
   | MEnd =>
-    pump_quiet (s_p0 s) /\ pump_quiet (s_p1 s)
-    /\ ((exists st, r = RDone st) \/ s_trace s = [LStatus 4])
+    pump_quiet (s_p0 s) /\ pump_quiet (s_p1 s) /\ exists st, r = RDone st
   end.
 
 Lemma inv0 : Inv sys0.
@@ -50,7 +49,7 @@ Ltac fin :=
   try match goal with H : recognise _ = _ |- _ => rewrite H end;
   try solve [ reflexivity | assumption | discriminate | congruence
             | unfold pump_quiet, pump_started in *; congruence
-            | left; eexists; reflexivity | right; reflexivity
+            | eexists; reflexivity | left; eexists; reflexivity | right; reflexivity
             | left; split; [reflexivity| auto] | right; split; [reflexivity|auto]
             | eauto
             | repeat match goal with |- context [if ?c then _ else _] => destruct c end; reflexivity ].
@@ -123,21 +122,18 @@ Qed.
 Theorem lifecycle_language : forall sched : list act,
   let s := run sched in
   let t := trace s in
-  (r_prefix_ok (recognise t) = true /\ (s_main s = MEnd <-> r_complete (recognise t) = true))
-  \/ (spawnless_failed t = true /\ s_main s = MEnd).
+  r_prefix_ok (recognise t) = true /\ (s_main s = MEnd <-> r_complete (recognise t) = true).
 Proof.
   intros sched s t. pose proof (inv_run sched) as HI. fold s in HI. subst t. unfold trace.
   unfold Inv in HI. destruct (s_main s) eqn:Em.
-  - destruct HI as (Ht & _). rewrite Ht. left. cbn. split; [reflexivity|]. split; discriminate.
-  - destruct HI as (Hr & _). rewrite Hr. left. cbn. split; [reflexivity|]. split; discriminate.
-  - destruct HI as (Hr & _). rewrite Hr. left. cbn. split; [reflexivity|]. split; discriminate.
-  - destruct HI as (Hr & _). rewrite Hr. left. cbn. split; [reflexivity|]. split; discriminate.
-  - destruct HI as (Hr & _). rewrite Hr. left. destruct cancelled; cbn; (split; [reflexivity|]); split; discriminate.
-  - destruct HI as (Hr & _). rewrite Hr. left. cbn. split; [reflexivity|]. split; discriminate.
-  - destruct HI as (_ & _ & [[Hr _]|[Hr _]]); rewrite Hr; left; cbn; (split; [reflexivity|]); split; discriminate.
-  - destruct HI as (_ & _ & [[st Hr]|Ht]).
-    + rewrite Hr. left. cbn. split; [reflexivity|]. split; reflexivity.
-    + right. rewrite Ht. cbn. split; reflexivity.
+  - destruct HI as (Ht & _). rewrite Ht. cbn. split; [reflexivity|]. split; discriminate.
+  - destruct HI as (Hr & _). rewrite Hr. cbn. split; [reflexivity|]. split; discriminate.
+  - destruct HI as (Hr & _). rewrite Hr. cbn. split; [reflexivity|]. split; discriminate.
+  - destruct HI as (Hr & _). rewrite Hr. cbn. split; [reflexivity|]. split; discriminate.
+  - destruct HI as (Hr & _). rewrite Hr. destruct cancelled; cbn; (split; [reflexivity|]); split; discriminate.
+  - destruct HI as (Hr & _). rewrite Hr. cbn. split; [reflexivity|]. split; discriminate.
+  - destruct HI as (_ & _ & [[Hr _]|[Hr _]]); rewrite Hr; cbn; (split; [reflexivity|]); split; discriminate.
+  - destruct HI as (_ & _ & [st Hr]). rewrite Hr. cbn. split; [reflexivity|]. split; reflexivity.
 Qed.
 
 Theorem terminal_is_last : forall sched more : list act,
@@ -250,5 +246,13 @@ Example sched_cancel_trace :
   = [LSpawned; LRunning; LDelta 0; LDelta 1; LCancelReq; LDelta 0; LCancelled; LStatus 3]
   /\ s_main (run sched_cancel) = MEnd.
 Proof. vm_compute. split; reflexivity. Qed.
-Example sched_spawnless : trace (run [ACancel; APrecheckFail; ASpawnFrame]) = [LStatus 4].
+(* S12b, the code before the repair: a refused request produced a stream without a spawn frame, which
+   the recogniser rejects *)
+Definition sched_spawnless : list act := [ACancel; APrecheckFail; ASpawnFrame].
+Lemma spawnless_unfixed_refuted :
+  exists sched, trace (run_unfixed sched) = [LStatus 4]
+                /\ r_prefix_ok (recognise (trace (run_unfixed sched))) = false.
+Proof. exists sched_spawnless. vm_compute. split; reflexivity. Qed.
+Example sched_refused_now :
+  trace (run [ACancel; APrecheckFail; ASpawnFrame; APostSpawnFail; ASpawnFrame]) = [LSpawned; LStatus 4].
 Proof. vm_compute. reflexivity. Qed.
